@@ -120,6 +120,7 @@ prop("C04", [
 prop("C05", [
     dict(engine="verus", unit="dnsparse"),
     dict(engine="verus", unit="pktbuf"),
+    dict(engine="verus", unit="icmpparse", fns=["parse", "parse_nd_rtr_options", "parse_nd_rtr_solicit", "parse_nd_rtr_advert", "pref64_prefixlen", "NDOptions::add_option"]),
     dict(engine="verus", unit="dhcpparse"),
     dict(engine="verus", unit="dnsser", fns=["push_u16", "push_u32", "push_label", "push_str", "make_edns_opt", "push_rr", "DNSPkt::serialise", "DNSPkt::serialise_with_size"]),
     dict(engine="verus", unit="dhcphandlers", fns=["to_array", "handle_pkt", "handle_discover", "handle_request"]),
